@@ -322,6 +322,7 @@ func cmdCheck(argv []string) int {
 	rdir := filepath.Join(outRoot(), "replays", id)
 	var vlines []string
 	if len(viols) > 0 {
+		os.RemoveAll(rdir) // replays of an earlier run
 		os.MkdirAll(rdir, 0o755)
 	}
 	// one VIOLATION line per function under contract: the first failed obligation whose
@@ -399,6 +400,15 @@ func cmdCheck(argv []string) int {
 				n := 0
 				for _, e := range engines {
 					n += e.skippedCases
+				}
+				return n
+			}(),
+			"split_cases_attempted_in_no_tier": func() int {
+				// cases outside a `thorough` list: the function is then proved for the listed
+				// cases only (each for all inputs of that case), not for all inputs
+				n := 0
+				for _, e := range engines {
+					n += e.neverCases
 				}
 				return n
 			}(),
@@ -494,6 +504,13 @@ func writeReplay(e *Engine, id, rdir string, v *violation, repo string) (string,
 		}
 	}
 	path := filepath.Join(rdir, name+".json")
+	for i := 2; ; i++ {
+		// distinct obligations may mangle to one name (split cases): never overwrite a replay
+		if _, err := os.Stat(path); err != nil {
+			break
+		}
+		path = filepath.Join(rdir, fmt.Sprintf("%s~%d.json", name, i))
+	}
 	b, _ := json.MarshalIndent(rf, "", " ")
 	os.WriteFile(path, append(b, '\n'), 0o644)
 	return path, !rf.Confirmed
